@@ -215,6 +215,11 @@ class Ctx:
         self.input_objs[name] = s
         return s
 
+    def view_of(self, buf):
+        """memoryview of a (mutable) octet string handed out by octets()/bytes_of()"""
+        from .sbytes import SView
+        return SView(buf)
+
     def bytes_of(self, items, mutable=False):
         from .sbytes import SBytes
         out = []
@@ -446,6 +451,9 @@ class ConcreteCtx:
     def bytes_of(self, items, mutable=False):
         b = bytes(int(x) for x in items)
         return bytearray(b) if mutable else b
+
+    def view_of(self, buf):
+        return memoryview(buf)
 
     def text_of(self, b):
         return bytes(b).decode()
